@@ -170,6 +170,11 @@ func genWQ(g *genCtx) {
 				g.op("brk")
 			}
 		}
+		if profile == "C09" && !stopped && t%9 == 0 {
+			// the shutdown edge of the worker bound: Stop / Break with workers busy, the queue full and producers blocked
+			// (chosen without the case's PRNG: the scripts up to here are what they were)
+			g.op([]string{"stop", "brk"}[(t/9)%2])
+		}
 		// drain: release everything that can still run, receiving errors so that nobody stays blocked
 		for i := 0; i < n+2; i++ {
 			g.op("rel pick=0 err=%d", b2i(r.chance(1, 5) && subs > 0))
